@@ -17,7 +17,7 @@ from engine.core import res, violation, seed_offsets
 ID = "C03"
 LEVEL = "exploration"
 WORKERS = {"quick": 12, "thorough": 16}
-RULE = ("complete product mu{3e-6,0.01215,0.1} x initial states x tf{0.3,1.0,2.5} x {adaptive 8, adaptive 5, fixed 8} x direction{+1,-1}; periodic orbits {halo N,S, Lyapunov} x {L1,L2} x 2 amplitudes; "
+RULE = ("complete product mu{3e-6,0.01215,0.1} x initial states x tf{0.3,1.0,2.5} x {adaptive 8, adaptive 5, fixed 8} x direction{+1,-1}; periodic orbits {halo N,S, Lyapunov} x {L1,L2} x 2 amplitudes; every sequence of <= 3 operations {read monodromy, set period T0, set period 0.6 T0, propagate} on one orbit object followed by a read; "
         "non-trivial = STM compared entry-wise with both references; distinct = (mu, state, tf, method, direction) / orbit")
 ASSUMPTIONS = [
     "two-form W = T^T J T with T = [[I,0],[K,I]], K = [[0,-1,0],[1,0,0],[0,0,0]] (canonical momenta px=vx-y, py=vy+x, pz=vz), built in the harness",
@@ -216,7 +216,72 @@ def k_orbit(params):
     return res(evals=1, nontrivial=1, viol=list(viol.values()), sample={"tag": tag, "monodromy_rel_err": e, "reference_indices": ref_nu[:3]})
 
 
-KINDS = {"stm": k_stm, "orbit": k_orbit}
+def k_orbit_history(params):
+    """every sequence of up to `depth` operations {read monodromy, period := T0, period := 0.6 T0, propagate} on one orbit object, then a read:
+    whenever the monodromy is read it must be the derivative of the flow over the orbit's *current* period from its current initial state"""
+    import itertools
+    from props.c05 import make_orbit
+    from hiten.system.orbits.base import GenericOrbit
+
+    sysn = params["system"]
+    system = _L["System"].from_bodies(*sysn) if isinstance(sysn, list) else _L["System"].from_mu(sysn)
+    mu = float(system.mu)
+    fam, Ln, amp = params["family"], params["point"], params["amp"]
+    tag = "[family=%s L%d system=%s amplitude=%g]" % (fam, Ln, sysn, amp)
+    try:
+        seed = make_orbit(system, fam, Ln, amp)
+        seed.correct()
+    except Exception as exc:
+        return res(evals=1, nontrivial=0, sample={"tag": tag, "outcome": "correction rejected: %s" % type(exc).__name__})
+    x0 = np.array(seed.initial_state, dtype=float)
+    T0 = float(seed.period)
+    pt = system.get_libration_point(Ln)
+    periods = {"P1": T0, "P2": 0.6 * T0}
+    refs = {}
+
+    def ref(T):
+        if T not in refs:
+            refs[T] = ref_stm(mu, x0, T)[1]
+        return refs[T]
+    viol = {}
+    n = nt = 0
+    outcomes = set()
+    ops = ["R", "P1", "P2", "PROP"]
+    for depth in range(0, params["depth"] + 1):
+        for seq in itertools.product(ops, repeat=depth):
+            orb = GenericOrbit(pt, initial_state=x0.copy())
+            orb.period = T0
+            cur = T0
+            hist = list(seq) + ["R"]
+            reads = []
+            for k, op in enumerate(hist):
+                if op == "R":
+                    M = np.asarray(orb.monodromy, dtype=float)
+                    Mref = ref(cur)
+                    e = float(np.max(np.abs(M - Mref))) / (1.0 + float(np.max(np.abs(Mref))))
+                    reads.append(round(cur / T0, 3))
+                    if e > 1e-6:
+                        key = "orbit_history/monodromy_not_of_current_period"
+                        viol.setdefault(key, violation(key, "after the operations %s on one orbit object (period now %.6g) orbit.monodromy differs from the derivative of the flow over the current period by rel %.3e %s" % (
+                            hist[:k + 1], cur, e, tag), e, 0.0, ("orbit_history", params)))
+                elif op in periods:
+                    orb.period = periods[op]
+                    cur = periods[op]
+                else:
+                    orb.propagate(steps=200)
+                    tr = orb.trajectory
+                    tend = float(np.asarray(tr.times)[-1])
+                    if abs(tend - cur) > 1e-9 * (1 + cur):
+                        key = "orbit_history/trajectory_not_of_current_period"
+                        viol.setdefault(key, violation(key, "after the operations %s the propagated trajectory ends at t=%.9g, the orbit's period is %.9g %s" % (hist[:k + 1], tend, cur, tag), tend, cur, ("orbit_history", params)))
+            n += 1
+            if len(set(reads)) > 1 or (reads and reads[-1] != 1.0):
+                nt += 1
+            outcomes.add(tuple(reads))
+    return res(evals=n, nontrivial=nt, viol=list(viol.values()), sample={"tag": tag, "histories": n, "distinct_read_patterns": len(outcomes)})
+
+
+KINDS = {"stm": k_stm, "orbit": k_orbit, "orbit_history": k_orbit_history}
 
 
 def cases(tier, seed):
@@ -242,4 +307,6 @@ def cases(tier, seed):
             for fam, amps in (("halo_n", [0.05, 0.2]), ("halo_s", [0.2]), ("lyapunov", [0.01, 0.03])):
                 for amp in amps:
                     out.append(("orbit", {"system": sysn, "family": fam, "point": Ln, "amp": amp}))
+    for fam, Ln, amp in (("halo_n", 1, 0.2), ("lyapunov", 1, 0.01)) if tier == "quick" else (("halo_n", 1, 0.2), ("halo_s", 2, 0.2), ("lyapunov", 1, 0.01), ("lyapunov", 2, 0.03)):
+        out.append(("orbit_history", {"system": ["earth", "moon"], "family": fam, "point": Ln, "amp": amp, "depth": 3 if tier == "quick" else 4}))
     return out
